@@ -262,7 +262,7 @@ pub fn check(ctx: &Ctx) -> i32 {
     let mut ev = Evidence::default();
     ev.rule = "focused Core programs obtained from generated Fun programs (all constructs, effects anywhere); every cut is classified by (producer shape | consumer shape @ type class) and the histogram is reported; oracle: Core machine on the FsProg vs named AxCut machine on shrink_prog's output (output, result, termination), plus: free variables of every definition are parameters, lifted definitions' parameters are exactly their free variables, binders unique along every path. Non-trivial: the program contains a critical pair or unknown cut at a type with >= 2 xtors or a known cut (constructor against case / cocase against destructor); distinct by hash of (source, arguments).".into();
     ev.assumptions = vec!["Core and AxCut machines as in DESIGN.md 3.2/3.3".into()];
-    let n = ctx.tier.pick(6000, 60000);
+    let n = ctx.tier.pick(6000, 400000);
     let run = |b: &[u8]| {
         let c = decode(ctx, b);
         run_case(ctx, &c.prog, &c.tuples)
